@@ -1,0 +1,5 @@
+//go:build !verif
+
+package udp
+
+func verifYield(string) {}
